@@ -39,6 +39,7 @@ type abMsg struct {
 	plen     uint8
 	flags    uint32
 	valid    uint32
+	local    []byte // IFA_LOCAL, when the address has a peer (ip is then the peer's address)
 }
 
 func ipToks(t *vfh.Toks, b []byte) {
@@ -64,6 +65,7 @@ func (m abMsg) build(index int) rtnetlink.Message {
 	if m.hasAttrs {
 		am.Attributes = &rtnetlink.AddressAttributes{
 			Address:   net.IP(m.ip),
+			Local:     net.IP(m.local),
 			Flags:     m.flags,
 			CacheInfo: rtnetlink.CacheInfo{Prefered: m.valid / 2, Valid: m.valid, Created: 7, Updated: 9},
 		}
@@ -85,6 +87,12 @@ func abRun(out *vfh.Out, k int, failed bool, ms []abMsg) {
 			c.S("0").S("0")
 		}
 		c.N(int(m.plen)).U(uint64(m.flags)).U(uint64(m.valid))
+		c.B(m.isAddr && m.hasAttrs && len(m.local) != 0)
+		if m.isAddr && m.hasAttrs {
+			ipToks(c, m.local)
+		} else {
+			c.S("0").S("0")
+		}
 		msgs = append(msgs, m.build(index))
 	}
 	reqOK := false
@@ -173,6 +181,13 @@ func abGood(r *vfh.Rand, pool [][]byte) abMsg {
 		plen: uint8(vfh.Pick(r, []int{64, 64, 64, 128, 48, 56, 0, 10, 127})), flags: abRandFlags(r), valid: abRandValid(r)}
 }
 
+// abPeer: an address with a peer, as the kernel dumps it (IFA_ADDRESS = the peer, IFA_LOCAL = own)
+func abPeer(r *vfh.Rand, pool [][]byte) abMsg {
+	m := abGood(r, pool)
+	m.local = vfh.Pick(r, pool)
+	return m
+}
+
 // abBad returns a message that breaks one invariant.
 func abBad(r *vfh.Rand, pool [][]byte) abMsg {
 	m := abGood(r, pool)
@@ -245,6 +260,18 @@ func verifAddresserAddrs(t *testing.T, r *vfh.Rand, out *vfh.Out) {
 		abRun(out, k+3, false, []abMsg{abGood(r, pool), abGood(r, pool), bad})
 		k += 4
 	}
+	// an address with a peer, alone, first, last and in the middle of a dump; own = peer too
+	for i := 0; i < 16; i++ {
+		p := abPeer(r, pool)
+		if i%4 == 3 {
+			p.local = p.ip
+		}
+		abRun(out, k, false, []abMsg{p})
+		abRun(out, k+1, false, []abMsg{p, abGood(r, pool), abGood(r, pool)})
+		abRun(out, k+2, false, []abMsg{abGood(r, pool), p, abGood(r, pool)})
+		abRun(out, k+3, false, []abMsg{abGood(r, pool), abGood(r, pool), p})
+		k += 4
+	}
 	// random dumps: order, duplicates, length
 	n := vfh.N(4000, 150000)
 	for i := 0; i < n; i++ {
@@ -258,6 +285,9 @@ func verifAddresserAddrs(t *testing.T, r *vfh.Rand, out *vfh.Out) {
 			if j > 0 && r.Chance(1, 6) {
 				ms[j] = ms[r.Intn(j)]
 			}
+		}
+		if r.Chance(1, 10) && ln > 0 {
+			ms[r.Intn(ln)] = abPeer(r, pool)
 		}
 		if r.Chance(1, 12) && ln > 0 {
 			ms[r.Intn(ln)] = abBad(r, pool)
